@@ -22,6 +22,8 @@ def kind_switch(fn):
                 rest = [v for v in KINDS if v not in edges]
                 if len(rest) == 1 and b.term(t["otherwise"])["k"] != "unreachable":
                     edges[rest[0]] = t["otherwise"]
+                elif len(rest) > 1 and b.term(t["otherwise"])["k"] != "unreachable":
+                    edges["otherwise"] = t["otherwise"]
                 return i, edges
     return None
 
@@ -63,19 +65,10 @@ def released_on_all_paths(fn, blocks, acquire_call, entry):
     every path that leaves the arm: normal exits and unwind exits of later calls."""
     b = fn.body
     loc = acquire_call.t["dest"]["l"]
-    drops = set()
-    for i in range(b.n):
-        t = b.term(i)
-        if t["k"] == "drop" and t["p"]["l"] == loc and not t["p"].get("pr"):
-            drops.add(i)
-        if t["k"] == "call" and (t.get("callee") or "").endswith("mem::drop"):
-            # drop(x) consumes the local
-            for a in t["args"]:
-                p = a.get("move")
-                if p and p["l"] == loc:
-                    drops.add(i)
-            # drop(Vec::from_raw_parts(..)) with a temporary
-    # moved directly into mem::drop?  look for a call whose arg is the acquire dest
+    from props.common import drop_blocks_of
+
+    # the owner may be moved (returned by a spliced helper, bound to another local) before it is dropped
+    drops = drop_blocks_of(b, loc)
     if not drops:
         return False, "the rebuilt owner is never dropped"
     start = acquire_call.t.get("target")
@@ -120,7 +113,7 @@ def run(ctx):
                 d = strip_sym(sy.operand(t["discr"]))
                 # field "1" of self (possibly via a tuple temp)
                 txt = repr(d)
-                if "'1'" in txt or (d[0] == "field" and d[2] == "1"):
+                if "'1'" in txt or (d[0] == "field" and d[2] == "1") or sym_is_call(d, "cow::Metadata::capacity"):
                     recognised = True
                     for a in t["arms"]:
                         table[a["v"]] = a["bb"]
@@ -353,7 +346,19 @@ def run(ctx):
         if ok:
             a = arg_syms(cs[0])
             ok = "'ptr'" in repr(a[0]) and "'metadata'" in repr(a[1]) and is_param(_root(a[0]), 0) and is_param(_root(a[1]), 0)
-            skip = [r for r in f.body.return_blocks() if r in f.body.reachable(0, cut={cs[0].bb})]
+            cut = {cs[0].bb}
+            if meth == "drop":
+                # releasing may be skipped for a Borrowed value only (it holds neither an allocation nor a reference)
+                from facts import PredFlow
+
+                def csw(subj, variant):
+                    if sym_is_call(subj, "cow::Metadata::kind"):
+                        return "P" if variant == "Borrowed" else "N"
+                    return None
+
+                pf = PredFlow(f, csw)
+                cut |= {x for x in range(f.body.n) if pf.at(x) == "P"}
+            skip = [r for r in f.body.return_blocks() if r in f.body.reachable(0, cut=cut) and r not in cut]
             ok = ok and not skip
         chk.ob("C14.b", f.path, ok, f"{meth}() = {inner.split('::')[-1]}(self.ptr, &self.metadata) on every path" if ok else f"{meth}() does not forward to {inner} exactly once with (self.ptr, &self.metadata)", f.loc())
     # std Cow conversion
@@ -373,6 +378,8 @@ def run(ctx):
             # Owned and Shared share a block when written `A | B =>`
             ok = "borrowed_from_parts" in res.get("Borrowed", []) and all("into_owned" in res.get(k, ["into_owned"]) or res.get(k) == [] for k in ("Owned", "Shared"))
             own_t = {edges.get("Owned"), edges.get("Shared")}
+            if own_t == {None}:
+                own_t = {edges.get("otherwise")}  # `if let Kind::Borrowed = .. { return .. }` followed by the owning case
             anyown = any("into_owned" in [strip_generics(c.resolved or "").split("::")[-1] for c in f.body.calls() if c.bb in b.reachable(t)] for t in own_t if t is not None)
             ok = ok and anyown
             detail = f"arms: {res}"
@@ -428,17 +435,12 @@ def _ret_in(f, blocks):
 
 
 def _dropped(f, blocks, acq):
+    from props.common import drop_blocks_of
+
     b = f.body
     loc = acq.t["dest"]["l"]
-    for i in sorted(blocks):
-        t = b.term(i)
-        if t["k"] == "drop" and t["p"]["l"] == loc:
-            return True, "rebuilt owner is dropped"
-        if t["k"] == "call" and (t.get("callee") or "").endswith("mem::drop"):
-            for a in t["args"]:
-                p = a.get("move")
-                if p and p["l"] == loc:
-                    return True, "rebuilt owner is passed to drop()"
+    if drop_blocks_of(b, loc) & set(blocks):
+        return True, "rebuilt owner is dropped"
     return False, "the rebuilt owner is not dropped in this arm (leak)"
 
 
